@@ -602,6 +602,9 @@ def setattr_value(eng, o, attr, v):
 
 def norm_index(eng, i, n, exc=True):
     """python index -> non-negative z3 index, IndexError path when out of range."""
+    if isinstance(i, SV) and isinstance(i.ty, TOpt) and i.ty.t == TInt:
+        eng.maybe_raise(z3.Not(i.ty.is_none(i.e)), 'TypeError')       # lst[None]
+        i = SV(TInt, i.ty.get(i.e))
     iv = eng.num(i)
     if eng.spec:
         return _int(iv)
@@ -1766,8 +1769,16 @@ def set_update(eng, s, *others):
             for x in it.concrete:
                 set_add(eng, s, x)
         else:
-            r = set_binop(eng, 'BitOr', s, b_set(eng, o))
-            s.e = r.e
+            # the union as a named set with a pointwise definition (a lambda term stored inside a list of sets defeats z3's
+            # array reasoning once the list is edited)
+            other = b_set(eng, o)
+            if s.ty is None:
+                s.set_type(other.ty)
+            ty = s.ty
+            r = eng.fresh(ty, 'updated')
+            x = z3.FreshConst(ty.t.sort(), 'ux')
+            eng.assume(z3.ForAll([x], z3.Select(r, x) == z3.Or(z3.Select(s.e, x), z3.Select(to_z3(other, ty), x)), patterns=[z3.Select(r, x)]))
+            s.e = r
 
 
 def _has_ite(e):
